@@ -41,7 +41,7 @@ NOT_APPLICABLE = {
 
 PROPS = {
     'C02': dict(
-        rules=[r_linear.rule_L05_from_scratch, r_linear.rule_L05w_compositions],
+        rules=[r_linear.rule_L05_from_scratch, r_linear.rule_L05w_compositions, r_linear.rule_L03_all_methods],
         feature_sets=_sets(['default'], ['default', 'u16', 'f32']),
         rules_thorough=[on_build(r_linear.rule_L05_from_scratch, 'u16'), on_build(r_linear.rule_L05_from_scratch, 'f32')],
         explanation=('(L05) for the single-window linear methods SMA, WMA, LinReg, Momentum, Derivative, Past and the windowed Integral: the window of the last n inputs is abstracted by its '
@@ -53,7 +53,10 @@ PROPS = {
                      'evaluated at the newest point (LinReg), x - p, (x - p)/n, p, M0 (Momentum, Derivative, Past, Integral). Hence, in exact arithmetic, every output of every stream equals the formula evaluated from scratch on the last n inputs, '
                      'the construction value standing in before the stream began. The table of formulas is the text of the property / the documentation, not read off the code. '
                      '(L05w) TRIMA and HMA are the documented compositions of such components: with inner methods as opaque objects that remember their type, length and seed, TRIMA::new builds SMA(n), SMA(n) and HMA::new builds '
-                     'WMA(n/2), WMA(n), WMA(floor sqrt n), all seeded with the first value; next() steps every component exactly once on every path, feeds them input / input and out0 resp. input / input / 2*out0 - out1 and returns the last output.'),
+                     'WMA(n/2), WMA(n), WMA(floor sqrt n), all seeded with the first value; next() steps every component exactly once on every path, feeds them input / input and out0 resp. input / input / 2*out0 - out1 and returns the last output. '
+                     '(L03m) dimensional analysis of every method over a single value (30 methods, the non-linear ones included: StDev, CCI, MeanAbsDev, LinearVolatility, RateOfChange, Vidya, TSI ...): the stream carries the unit price; '
+                     'no comparison of a price-scaled quantity with an absolute non-zero constant and no sum of quantities of different dimension - the documented formulas are homogeneous, so such a test (`mean_deviation > EPSILON`) '
+                     'makes the output differ from the formula on streams of another scale (the property quantifies over abrupt changes of scale).'),
         not_decided=['SWMA (two windows updated by one function; its weight sum is decided by L01 under C15), Conv (loop), VWMA (product of two streams), StDev / LinearVolatility / CCI / MeanAbsDev / MedianAbsDev (quadratic or selection), RateOfChange (ratio), windowed ADI (candle input): outside the moment domain, not decided',
                      'the floating-point rounding allowance: the argument is over the reals; that the incremental sums do not drift is C07\'s subject'],
         assumptions=TRUST,
